@@ -587,35 +587,100 @@ func ruleClassify(c *Ctx) {
 		return
 	}
 	inPkg := func(h *ssa.Function) bool { return eng.PkgPathOf(h) != eng.Mod+"/ipinfo" }
-	storeOf := func(code string) func(ssa.Instruction) bool {
-		return func(ins ssa.Instruction) bool {
-			st, ok := ins.(*ssa.Store)
-			if !ok {
-				return false
-			}
-			s, ok := eng.ConstString(st.Val)
-			if !ok || s != code {
-				return false
-			}
-			fa, ok := st.Addr.(*ssa.FieldAddr)
-			if !ok {
-				return false
-			}
-			_, fl, _, ok := eng.FieldOf(fa)
-			return ok && fl == "CountryCode"
-		}
-	}
-	anyCodeStore := func(ins ssa.Instruction) bool {
-		st, ok := ins.(*ssa.Store)
-		if !ok {
-			return false
-		}
-		fa, ok := st.Addr.(*ssa.FieldAddr)
+	isCodeField := func(addr ssa.Value) bool {
+		fa, ok := addr.(*ssa.FieldAddr)
 		if !ok {
 			return false
 		}
 		_, fl, _, ok := eng.FieldOf(fa)
 		return ok && fl == "CountryCode"
+	}
+	// code constructors: helpers of the package one of whose parameters is stored into a CountryCode field
+	// (placeholderInfo(code) IPInfo); code selectors: helpers whose result type is the code type (lookupCountryCode(...))
+	ctorParam := map[*ssa.Function]int{}
+	selector := map[*ssa.Function]bool{}
+	for _, h := range p.FnsIn("ipinfo") {
+		if p.IsTestSupport(h) {
+			continue
+		}
+		for _, b := range h.Blocks {
+			for _, ins := range b.Instrs {
+				if st, ok := ins.(*ssa.Store); ok && isCodeField(st.Addr) {
+					for i, pa := range h.Params {
+						if p.AnyFrom(st.Val, eng.Plain, func(v ssa.Value) bool { return v == ssa.Value(pa) }) {
+							ctorParam[h] = i
+						}
+					}
+				}
+			}
+		}
+		if rs := h.Signature.Results(); rs.Len() == 1 && strings.HasSuffix(rs.At(0).Type().String(), "ipinfo.CountryCode") {
+			selector[h] = true
+		}
+	}
+	// labelling events: a constant code stored into a CountryCode field, handed to a code constructor, or returned by a
+	// code selector (code == "": any of the four special codes, or any constant for the store form)
+	isCode := func(v ssa.Value, code string) bool {
+		s, ok := eng.ConstString(v)
+		if !ok {
+			return false
+		}
+		if code == "" {
+			return s != ""
+		}
+		return s == code
+	}
+	storeOf := func(code string) func(ssa.Instruction) bool {
+		return func(ins ssa.Instruction) bool {
+			switch x := ins.(type) {
+			case *ssa.Store:
+				return isCodeField(x.Addr) && isCode(x.Val, code)
+			case *ssa.Call:
+				if h := x.Call.StaticCallee(); h != nil {
+					if i, ok := ctorParam[h]; ok && i < len(x.Call.Args) {
+						return isCode(x.Call.Args[i], code)
+					}
+				}
+			case *ssa.Return:
+				if selector[x.Parent()] && len(x.Results) == 1 {
+					rv := x.Results[0]
+					if sv := p.ReachingStore(rv, x); sv != nil {
+						rv = sv
+					}
+					return isCode(rv, code)
+				}
+			}
+			return false
+		}
+	}
+	anyCodeStore := func(ins ssa.Instruction) bool {
+		if st, ok := ins.(*ssa.Store); ok && isCodeField(st.Addr) {
+			// a store of a non-constant (the database's answer, a selector's result) is a labelling too
+			if _, isC := st.Val.(*ssa.Const); !isC {
+				return true
+			}
+		}
+		return storeOf("")(ins)
+	}
+	// what a selector returns ends up in a CountryCode field at every call site
+	for h := range selector {
+		for _, site := range p.CallSitesOf(h) {
+			if p.IsTestSupport(site.Fn) {
+				continue
+			}
+			call, ok := site.Ins.(*ssa.Call)
+			used := false
+			if ok {
+				for _, b := range site.Fn.Blocks {
+					for _, ins := range b.Instrs {
+						if st, isSt := ins.(*ssa.Store); isSt && isCodeField(st.Addr) && p.AnyFrom(st.Val, eng.Plain, func(v ssa.Value) bool { return v == ssa.Value(call) }) {
+							used = true
+						}
+					}
+				}
+			}
+			c.CheckAt("CLASSIFY", short(site.Fn)+":selected-code-is-stored", site.Ins, used, "the code chosen by "+short(h)+" is not stored as the location")
+		}
 	}
 	// ---- the IP helper and its region ----
 	f := fromIP
@@ -655,6 +720,16 @@ func ruleClassify(c *Ctx) {
 		c.CheckAt("CLASSIFY", key+":database-only-for-global-addresses", db, reg.CutDeep(db, gGlobal), "the database is consulted for a non-global address (the location of local addresses must be decided by class alone)")
 		c.CheckAt("CLASSIFY", key+":database-asked-about-the-address", db, isIP(db.Call.Args[0]), "the database is asked about something other than the address parameter")
 	}
+	isDBErr := func(v ssa.Value) bool {
+		return p.AnyFrom(v, deepF, func(x ssa.Value) bool {
+			for _, db := range dbs {
+				if eng.ResultOf(x, db, 1) {
+					return true
+				}
+			}
+			return false
+		})
+	}
 	gDBFail := c.NewGuard(func(fn *ssa.Function) eng.EdgeSet {
 		out := eng.EdgeSet{}
 		for _, db := range dbs {
@@ -663,8 +738,19 @@ func ruleClassify(c *Ctx) {
 				out = eng.Union(out, fl)
 			}
 		}
-		return out
+		// ... or a nil test on a value that is the database call's error (handed to a selector helper)
+		_, nn := p.NilEdges(fn, isDBErr)
+		return eng.Union(out, nn)
 	})
+	isAnswerCode := func(v ssa.Value) bool {
+		if _, fl, _, ok := eng.FieldLoad(v); ok && fl == "CountryCode" {
+			return true
+		}
+		return p.AnyFrom(v, deepF, func(x ssa.Value) bool {
+			_, fl, _, ok := eng.FieldLoad(x)
+			return ok && fl == "CountryCode"
+		})
+	}
 	gEmpty := c.NewGuard(func(fn *ssa.Function) eng.EdgeSet {
 		out := eng.EdgeSet{}
 		for _, b := range fn.Blocks {
@@ -677,7 +763,7 @@ func ruleClassify(c *Ctx) {
 				continue
 			}
 			if s, ok := eng.ConstString(bo.Y); ok && s == "" {
-				if _, fl, _, ok := eng.FieldLoad(bo.X); ok && fl == "CountryCode" {
+				if isAnswerCode(bo.X) {
 					if bo.Op == token.EQL {
 						out[eng.Edge{From: b, To: b.Succs[0]}] = true
 					} else if bo.Op == token.NEQ {
